@@ -136,6 +136,20 @@ def r1_table(repo):
         obs.append(Ob("C15-R1", "site:" + " & ".join(o.gtext(st)), _w(o.f, st), key_ok,
                       "report store `%s` must be output[pid] = <proc_res>.stats" % src(st),
                       {"guards": o.gtext(st)}))
+    # the per-file judgement is made for EVERY file of EVERY program: the two loops are not left early
+    loops = [n for n in iter_own_nodes(o.f.node) if isinstance(n, ast.For)]
+    inner = [l for l in loops if src(l.iter).endswith(".stats['programs'].items()")]
+    outer = [l for l in loops if src(l.iter) == "oracles.items()" and inner and is_within(inner[0], l)]
+    okl, why = len(inner) == 1 and len(outer) == 1, "loops over oracles.items() / stats['programs'].items() not found"
+    if okl:
+        esc = [n for n in ast.walk(inner[0]) if isinstance(n, (ast.Break, ast.Continue, ast.Return))]
+        esc_o = [n for n in ast.walk(outer[0]) if isinstance(n, (ast.Break, ast.Return)) and not is_within(n, inner[0])]
+        okl = not esc and not esc_o
+        why = "early exits inside the per-file loop: %s; break/return in the per-program loop: %s" % (
+            [(type(n).__name__, n.lineno) for n in esc], [(type(n).__name__, n.lineno) for n in esc_o])
+    obs.append(Ob("C15-R1", "loops:every-file-of-every-program-is-judged", _w(o.f), okl,
+                  "a break / continue / return inside the loop over a program's files skips the verdict (and the "
+                  "message) of the remaining files: " + why))
     # also every early `return` of the function restricts what is reported: a store is effective only if no
     # earlier return was taken; early returns are part of each store's guards (negated leaving-ifs), so they are
     # already in `conds`.  Free atoms (tests other than C/F/O/E) are quantified universally.
@@ -473,6 +487,11 @@ def r5_counters(repo):
         inner = f.nested.get("process_res")
         if inner is None:
             raise AnalysisError("%s.process_res missing" % name, rule="C15-R5", anchor=f.qualname)
+        if len(inner.params) < 4:
+            obs.append(Ob("C15-R5", "%s.process_res:passes-batch-size" % name, _w(inner), False,
+                          "process_res no longer receives the size of the batch it is given (parameters %s): the "
+                          "counters cannot follow a short last batch" % inner.params))
+            continue
         bp = inner.params[3]
         us = []
         for sub in [inner] + list(inner.nested.values()):
